@@ -59,6 +59,7 @@ def make_h(tier):
         for d in pick_dirs:
             dir_names += [d, d + "x", "x" + d, d.upper()]
         dir_names.append("mylib.egg-info")
+        dir_names += ["query_cache", "pytest_cache"]       # ordinary directories whose names merely end like a tool cache
         dir_names.append("keep.py")        # a directory whose name is also the name of a regular file elsewhere (pkg/keep.py)
         file_names = ["a.py", "b.ts"] + ["m" + e + ".py" for e in (exts if not quick else exts[:3])] + \
                      ["builder.py", "build.py", "c" + exts[0], "build", "dist"]      # "build"/"dist": regular files (python scripts) named like an excluded directory
@@ -71,7 +72,7 @@ def make_h(tier):
         ig = ctx.pick("ignore_pattern", ("none", "dir1/", "build/", "*.ts", "dir1/file", "dir1/**", "**/file", "**/dir1/", "**/dir2/", "wild-dir1/", "dir1/dir2/"))
         if ig not in ("none", "build/", "dir1/") and d1 not in ("pkg", "build", "buildx", "xbuild", "BUILD", "node_modules", ".hidden", "keep.py"):
             ctx.assume(False)
-        kinds = (".thailintignore", "config-ignore")
+        kinds = (".thailintignore", "config-ignore", ".thailintignore-with-byte-order-mark")
         if not quick or ig in ("dir1/", "*.ts", "**/file"):
             kinds += (".thailintignore-next-to-a-config-list", "config-ignore-next-to-an-ignore-file")
         src_kind = ctx.pick("ignore_source", kinds) if ig != "none" else "none"
@@ -95,7 +96,9 @@ def make_h(tier):
                        "wild-dir1/": d1[:-1] + "*/", "dir1/dir2/": d1 + "/" + d2 + "/"}[ig]
             if pattern is not None:
                 # a project may carry both sources: each keeps its effect (the other one holds an unrelated pattern)
-                if src_kind.startswith(".thailintignore"):
+                if src_kind == ".thailintignore-with-byte-order-mark":
+                    (root / ".thailintignore").write_bytes(b"\xef\xbb\xbf" + (pattern + "\n# comment\n").encode())     # the pattern is the first line
+                elif src_kind.startswith(".thailintignore"):
                     (root / ".thailintignore").write_text("# comment\n" + pattern + "\n")
                     if src_kind != ".thailintignore":
                         (root / ".thailint.yaml").write_text("ignore:\n  - \"zzz_unrelated/\"\n")
